@@ -76,9 +76,15 @@ pub fn main(opts: &Opts) {
                 let areas = exclusively_owned_areas(&boxes);
                 exclusively_owned_areas_normalized_shares(&boxes, &areas)
             });
-            (i1, i2, iou, own.ok(), b.area())
+            // the polygon of the object as it is now (both the fresh and the re-generated one)
+            let v1: Vec<(f64, f64)> = b.get_vertices().exterior().points().map(|p| (p.x(), p.y())).collect();
+            let mut b2 = b.clone();
+            b2.xc = b.xc;
+            b.gen_vertices();
+            let v2: Vec<(f64, f64)> = b.get_cached_vertices().as_ref().map(|p| p.exterior().points().map(|q| (q.x(), q.y())).collect()).unwrap_or_default();
+            (i1, i2, iou, own.ok(), b.area(), v1, v2)
         });
-        let (i1, i2, iou, own, area) = match r {
+        let (i1, i2, iou, own, area, v1, v2) = match r {
             Ok(x) => x,
             Err(_) => {
                 rep.mismatch("boxobj:panic", idx, &c, json!({}));
@@ -88,6 +94,21 @@ pub fn main(opts: &Opts) {
         let exp_i = jint(&c, "inter16") as f64 / 16.0;
         let exp_u = jint(&c, "union16") as f64 / 16.0;
         let tol = |e: f64| 1e-4f64.max(e.abs() * 1e-5);
+        if focus == "c19" || focus == "all" {
+            // vertices in quarter units: every expected corner is a corner of the polygon, and nothing else is
+            let exp: Vec<(f64, f64)> = jarr(&c, "verts").iter().map(|p| (ji(&p[0]) as f64 / 4.0, ji(&p[1]) as f64 / 4.0)).collect();
+            for (name, v) in [("get_vertices", &v1), ("gen_vertices", &v2)] {
+                let ok = exp.iter().all(|e| v.iter().any(|q| (q.0 - e.0).abs() < 1e-3 && (q.1 - e.1).abs() < 1e-3))
+                    && v.iter().all(|q| exp.iter().any(|e| (q.0 - e.0).abs() < 1e-3 && (q.1 - e.1).abs() < 1e-3));
+                if !ok {
+                    rep.mismatch(&format!("boxobj:{}:polygon", name), idx, &c, json!({"spec": exp, "impl": v}));
+                    return;
+                }
+            }
+        }
+        if focus == "c19" {
+            return;
+        }
         if focus != "c15" {
             if (area as f64 - jint(&c, "area16") as f64 / 16.0).abs() > tol(area as f64) {
                 rep.mismatch("boxobj:area", idx, &c, json!({"impl": area}));
